@@ -6,7 +6,7 @@ from concurrent.futures import ThreadPoolExecutor
 VERIF = os.path.dirname(os.path.dirname(os.path.abspath(__file__)))
 REPO = os.environ.get("VERIF_REPO", "/repo")
 LEAN = os.path.join(VERIF, "lean")
-BUILD = os.path.join(VERIF, "build")
+BUILD = os.environ.get("VERIF_BUILD_DIR") or os.path.join(VERIF, "build")
 HARNESS = os.path.join(VERIF, "harness")
 GUARD = "CARQUET_VERIF"
 NCPU = os.cpu_count() or 4
@@ -88,8 +88,13 @@ def build_harness(variant="asan", log=None):
     exe = os.path.join(d, "harness")
     if os.path.exists(exe):
         return exe
+    # stale caches: only those not touched for 3 hours (another run may be using a younger one right now)
     for old in glob.glob(os.path.join(BUILD, f"h-{variant}-*")):
-        shutil.rmtree(old, ignore_errors=True)
+        try:
+            if time.time() - os.path.getmtime(old) > 3 * 3600:
+                shutil.rmtree(old, ignore_errors=True)
+        except OSError:
+            pass
     os.makedirs(d, exist_ok=True)
     base = ["gcc", "-std=gnu11", "-w"] + VARIANTS[variant] + DEFS + \
            [f"-I{REPO}/include", f"-I{REPO}/src", "-isystem", ZSTD_INC, f"-I{HARNESS}"]
